@@ -334,7 +334,7 @@ func driveEncoder(c *driverCtx, prop string) error {
 			ks = append([]int{1}, ks[:limit-1]...)
 		}
 		for _, k := range ks {
-			for _, acc := range []int{0, 1, 1 << 30, -1} {
+			for _, acc := range []int{0, 1, 1 << 30, -1, -2, -3} {
 				runEncoderHistory(c, prop, key+fmt.Sprintf("|k%d.a%d", k, min(acc, 2)), hc.codec, hc.block, hc.hist, k, acc, ref)
 			}
 		}
@@ -347,13 +347,13 @@ func driveEncoder(c *driverCtx, prop string) error {
 		nb := c.rng.Intn(4)
 		blocks := make([][2]any, nb)
 		for j := range blocks {
-			blocks[j] = [2]any{1 + c.rng.Intn(100), payload(c.rng, c.rng.Intn(200))}
+			blocks[j] = [2]any{1 + c.rng.Intn(100), payload(c.rng, c.rng.Intn(200)*min(c.rng.Intn(4), 1))} // one in four payloads is empty
 		}
 		key := fmt.Sprintf("%s|filewriter|%s|blocks%d", prop, codec, nb)
 		writes, ref := runFileWriterHistory(c, key, codec, blocks, 0, 0, nil)
 		if prop == "C16" {
 			for k := 1; k <= writes; k++ {
-				runFileWriterHistory(c, key+fmt.Sprintf("|k%d", k), codec, blocks, k, []int{0, 1, 1 << 30}[c.rng.Intn(3)], ref)
+				runFileWriterHistory(c, key+fmt.Sprintf("|k%d", k), codec, blocks, k, []int{0, 1, 1 << 30, -1, -2, -3}[(k+i)%6], ref)
 			}
 		}
 	}
